@@ -782,7 +782,9 @@ def fusion(
     while True:
         try:
             instr2, addr2 = next(instr_iter)
-        except (StopIteration, NotImplementedError):
+        except (StopIteration, NotImplementedError, AssertionError):
+            # The lookahead only exists to fuse PRE prefixes; an undecodable
+            # follower must not invalidate the instruction already decoded.
             yield instr1, addr1
             break
 
